@@ -45,7 +45,9 @@ def run(case, ctx):
     tol = max([R.agg_tolerance(v["values"]) for v in case["vals"]] + [1e-9])
 
     def recorder(vals):
-        return repr(list(vals))
+        # a custom function may look at its group more than once (max(v) - min(v), len(v), v[0]): two passes here
+        first, second = list(vals), list(vals)
+        return repr((first, second))
 
     over_arg, kw = R.group_call_args(case, over, vspecs, recorder)
     ctx.ev()
@@ -73,6 +75,19 @@ def run(case, ctx):
                                 f"window col {wc[c]}, aggregate col {ac[c]}")
         if len({repr(x) for x in ac[c]}) > 1:
             varies = True
+    # no partition key at all (over=[]): if the library takes the whole table as one group, window repeats aggregate's single row
+    if kw and n:
+        ctx.ev()
+        try:
+            a0, w0 = t.aggregate(over=[], **kw), t.window(over=[], **kw)
+        except Exception:  # noqa: BLE001  (not asserted: the statement speaks of partition keys)
+            a0 = w0 = None
+        if a0 is not None and isinstance(a0, S.Table) and isinstance(w0, S.Table) and len(a0) == 1:
+            if len(w0) != n:
+                return ctx.fail("window/no-key/row-count", f"over=[]: aggregate gives one row, window {len(w0)} rows for {n} input rows")
+            for ca, cw in zip(a0.cols(), w0.cols()):
+                if any(not same(x, list(ca)[0]) for x in cw):
+                    return ctx.fail("window/no-key/value-differs-from-aggregate", f"over=[]: aggregate {list(ca)}, window {list(cw)}")
     # the same call with positional arguments (in the order aggregate declares them): window still is "aggregate joined back"
     import inspect
     order = [p_ for p_ in inspect.signature(S.Table.aggregate).parameters if p_ not in ("self",)]
